@@ -1,5 +1,5 @@
 SPECIFICATION TSpec
 CONSTRAINT Track
-INVARIANT TInv TLimits
+INVARIANT TInv
 POSTCONDITION Accepted
 CHECK_DEADLOCK FALSE
